@@ -1037,6 +1037,50 @@ unsafe fn is_ledger_socket(fd: c_int) -> bool {
     matches!(lookup(fd).map(|i| i.kind), Some(Kind::Sock))
 }
 
+// Equivalent entry points a library might use instead (kept under the same control so that a
+// behaviour-preserving switch between them does not take a blocking call out of the scheduler's
+// sight): sendto/recvfrom without an address are send/recv; ppoll and epoll_pwait without a signal
+// mask are poll and epoll_wait.
+#[no_mangle]
+pub unsafe extern "C" fn sendto(fd: c_int, buf: *const c_void, len: size_t, flags: c_int, addr: *const sockaddr, alen: socklen_t) -> ssize_t {
+    if addr.is_null() {
+        return send(fd, buf, len, flags);
+    }
+    cvt(sc6(libc::SYS_sendto, fd as usize, buf as usize, len, flags as usize, addr as usize, alen as usize)) as ssize_t
+}
+
+#[no_mangle]
+pub unsafe extern "C" fn recvfrom(fd: c_int, buf: *mut c_void, len: size_t, flags: c_int, addr: *mut sockaddr, alen: *mut socklen_t) -> ssize_t {
+    if addr.is_null() {
+        return recv(fd, buf, len, flags);
+    }
+    cvt(sc6(libc::SYS_recvfrom, fd as usize, buf as usize, len, flags as usize, addr as usize, alen as usize)) as ssize_t
+}
+
+#[no_mangle]
+pub unsafe extern "C" fn ppoll(fds: *mut libc::pollfd, nfds: libc::nfds_t, ts: *const libc::timespec, sigmask: *const libc::sigset_t) -> c_int {
+    if !active() || !sigmask.is_null() {
+        return cvt(sc6(libc::SYS_ppoll, fds as usize, nfds as usize, ts as usize, sigmask as usize, 8, 0)) as c_int;
+    }
+    let ms: c_int = if ts.is_null() {
+        -1
+    } else {
+        let t = &*ts;
+        let ns = t.tv_sec as i128 * 1_000_000_000 + t.tv_nsec as i128;
+        let ms = (ns + 999_999) / 1_000_000;
+        if ms > c_int::MAX as i128 { c_int::MAX } else { ms as c_int }
+    };
+    poll(fds, nfds, ms)
+}
+
+#[no_mangle]
+pub unsafe extern "C" fn epoll_pwait(epfd: c_int, events: *mut libc::epoll_event, max: c_int, timeout: c_int, sigmask: *const libc::sigset_t) -> c_int {
+    if !active() || !sigmask.is_null() {
+        return cvt(sc6(libc::SYS_epoll_pwait, epfd as usize, events as usize, max as usize, timeout as usize, sigmask as usize, 8)) as c_int;
+    }
+    epoll_wait(epfd, events, max, timeout)
+}
+
 #[no_mangle]
 pub unsafe extern "C" fn read(fd: c_int, buf: *mut c_void, len: size_t) -> ssize_t {
     if is_ledger_socket(fd) {
